@@ -22,9 +22,12 @@ Judge(e) ==
   ELSE IF e.dknown /\ e.sink \in {"collect_set", "store"} /\ Len(e.delivered) # Cardinality(SetOf(kept)) THEN "duplicates"
   ELSE IF e.dknown /\ \E i \in 1..Len(e.alt) : e.alt[i] # e.delivered THEN "index-arms"
   ELSE IF e.sink = "store" /\ r.result = "ok" /\ e.count # Cardinality(SetOf(r.delivered)) THEN "count"
-  ELSE IF e.pulled >= 0 /\ e.pulled # r.pos THEN "pulled"
-  ELSE IF e.sknown /\ e.srckind = "iter" /\ ~iterForm /\ e.steps # r.steps THEN "steps"
-  ELSE IF e.sknown /\ (e.srckind # "iter" \/ iterForm) /\
+  \* the source must have been pulled at least as far as the consumer got; pulling further (a step that hands over several items,
+  \* an iterator bridge that buffers a batch) is not observable by the consumer and is allowed by Source::try_for_some_item's contract
+  ELSE IF e.pulled >= 0 /\ e.pulled < r.pos THEN "pulled"
+  \* step-wise driving: "some items (possibly zero)" per step - every step but the last reports more to come, the last one
+  \* reports the end exactly when the stream ended without error
+  ELSE IF e.sknown /\
           ~(/\ \A i \in 1..(Len(e.steps) - 1) : e.steps[i]
             /\ (r.result = "ok" => Len(e.steps) >= 1 /\ ~e.steps[Len(e.steps)])
             /\ (r.result # "ok" => \A i \in 1..Len(e.steps) : e.steps[i])) THEN "steps"
